@@ -42,3 +42,30 @@ pub fn encode_handshake(
         genesis,
     })
 }
+
+/// The real validator-network state of a node, driven one connection at a time.
+pub struct Node(std::sync::Arc<super::Network>);
+
+impl Node {
+    /// `None` if the gossip node has no validator key / epoch (then there is no validator network).
+    pub fn new(gossip: &crate::gossip::verif::Node) -> anyhow::Result<Option<Self>> {
+        Ok(super::Network::new(gossip.0.clone())?.map(Self))
+    }
+    pub async fn run_inbound_stream(&self, ctx: &ctx::Ctx, stream: NoiseTcp) -> anyhow::Result<()> {
+        self.0.run_inbound_stream(ctx, stream.0).await
+    }
+    pub async fn run_outbound_stream(
+        &self,
+        ctx: &ctx::Ctx,
+        peer: &validator::PublicKey,
+        addr: std::net::SocketAddr,
+    ) -> anyhow::Result<()> {
+        self.0.run_outbound_stream(ctx, peer, addr).await
+    }
+    pub fn inbound(&self) -> Vec<validator::PublicKey> {
+        self.0.inbound.current().keys().cloned().collect()
+    }
+    pub fn outbound(&self) -> Vec<validator::PublicKey> {
+        self.0.outbound.current().keys().cloned().collect()
+    }
+}
